@@ -510,6 +510,7 @@ func runC05(p *core.Prog, r *core.Report) {
 	r.Guard("C05.R5", "Scheduler.Update", "message handling", func() { checkSchedulerUpdate(p, r, "C05.R5") })
 	r.Guard("C05.R1", "shadowing", "only pending units are shadowed", func() { checkShadowOnlyPending(p, r) })
 	r.Guard("C05.R1", "worker-pool", "worker slot states", func() { checkWorkerPool(p, r) })
+	r.Guard("C05.R5", "termination-test", "every segment counts", func() { checkAllStoresCompleted(p, r) })
 	r.Guard("C05.R5", "walker-protocol", "walker wake-ups", func() { checkWalkerProtocol(p, r, "C05.R5") })
 	r.Guard("C05.R4", "helpers", "merge and shadowing predicates", func() { checkSchedulerHelpers(p, r) })
 	r.MinInstances("C05.R1", 14)
